@@ -355,6 +355,34 @@ def _replaces_whole_self(ctx, b, fl, bb, p, ty):
     return False
 
 
+def _fresh_empty_container(ctx, b, fl, p):
+    """The dropped place is field f of a local that is the result of a crate constructor every return of which builds f as an
+    empty container (`Vec::new()`, `BinaryHeap::new()`, `VecDeque::new()`): nothing a user gave us is in it."""
+    flds = [e for e in p["p"] if e["k"] == "field"]
+    if len(flds) != 1 or len(p["p"]) != 1:
+        return False
+    whole = [d_ for d_ in fl.defs.get(p["l"], []) if d_[2] != "partial"]
+    if len(whole) != 1 or whole[0][2] != "call":
+        return False
+    src = strip_refs(fl.call_expr(whole[0][3], whole[0][0]))
+    if not (src[0] == "call" and (src[1] or "") in ctx.facts.bodies):
+        return False
+    # the field is written at most once after the construction (the replacement this drop belongs to)
+    if sum(1 for d_ in fl.defs.get(p["l"], []) if d_[2] == "partial" and not b.is_cleanup(d_[0])) > 1:
+        return False
+    cb = ctx.facts.bodies[src[1]]
+    rets = returned_exprs(ctx, cb)
+    if not rets:
+        return False
+    for rb, e in rets:
+        if not (e[0] == "agg" and len(e) > 3 and flds[0]["name"] in e[3]):
+            return False
+        v = strip_refs(e[2][list(e[3]).index(flds[0]["name"])])
+        if not (v[0] == "call" and re.search(r"alloc::(vec::Vec|collections::(binary_heap::)?BinaryHeap|collections::(vec_deque::)?VecDeque)::<.*>::new$", v[1] or "")):
+            return False
+    return True
+
+
 def _only_callables(ctx, b, ty):
     """Every type parameter mentioned by `ty` (e.g. Option<F>) is one the body calls: a stored user closure."""
     names = set()
@@ -434,6 +462,9 @@ def r6_5(ctx, R):
                 # exactly as if the caller had dropped it
                 ok = True
                 why = "the old value of the whole collection (*self) is dropped when it is replaced"
+            elif p and _fresh_empty_container(ctx, b, fl, p):
+                ok = True
+                why = "the container being replaced was built empty by the constructor called just before (Vec::new() / BinaryHeap::new())"
             elif how == "assume_init_drop" and any(b in c07.impl_fns_of(ctx, sp) for sp in c07.mu_structs(ctx)):
                 ok = True
                 why = "release helper of a MaybeUninit buffer struct (covered by R6.1 / C07 R7.1)"
